@@ -332,6 +332,8 @@ def run_compiler_check(ctx, res, prop):
     replies = ctx.model(reqs)
     stats = dict(event_free=0, event_free_bad=0, failing=0, y1_only=0, in_fragment=0, in_fragment_bad=0,
                  in_general=0, in_general_only=0, in_general_cache_hit=0)
+    if prop in ("C03", "C06"):
+        stats.update(in_general=0, in_general_only=0, in_general_cache_hit=0)
     for n, k in enumerate(idx):
         job, out = jobs[k], outs[k]
         label, kind, payload, optn, unc, _ = job
@@ -390,7 +392,8 @@ def run_compiler_check(ctx, res, prop):
             if not rep.get("valid", True):
                 res.disagree(case, "model instance inside the class of a C02 fragment theorem rejected by the Lean validator "
                              "(contradicts the theorem's statement)", code=None, model=dict(valid=False))
-        # C03 / C06: the classes of C03_fragment_partial (inCleanFragment) / C06_fragment_partial (inXorFragment),
+        # C03 / C06: the classes of C03_general_partial (inGeneralCleanClass) / C06_general_partial (inGeneralXor with
+        # ret_never_control) and of C03_fragment_partial (inCleanFragment) / C06_fragment_partial (inXorFragment),
         # reported by the driver for uncompute=True runs (both theorems are proved for the model of the repaired
         # compiler; the classes no longer restrict the arity of Or); same rule
         if prop in ("C03", "C06") and unc and rep is not None and not mismatch:
@@ -399,6 +402,15 @@ def run_compiler_check(ctx, res, prop):
             if rep.get(key):
                 in_frag = True
                 stats["in_fragment"] += 1
+                gkey = "in_clean_general" if prop == "C03" else "in_xor_general"
+                if rep.get(gkey):
+                    # the class of C03_general_partial / C06_general_partial (definition lists, cache hits)
+                    stats["in_general"] += 1
+                    frag_thm = "C03_general_partial" if prop == "C03" else "C06_general_partial"
+                    if rep.get(gkey + "_only"):
+                        stats["in_general_only"] += 1
+                    if "cacheHit" in events:
+                        stats["in_general_cache_hit"] += 1
                 bad = (not rep.get(vkey, True)) or (prop == "C06" and rep.get("ret_never_control") is False)
                 if bad:
                     res.disagree(case, f"model instance inside the class of {frag_thm} rejected by the Lean validator "
@@ -461,6 +473,11 @@ def run_compiler_check(ctx, res, prop):
                          f"{stats['in_fragment_bad']} of these instances fail")
     if prop in ("C03", "C06"):
         thm, cls = (("C03_fragment_partial", "inCleanFragment") if prop == "C03" else ("C06_fragment_partial", "inXorFragment"))
+        gthm = "C03_general_partial (inGeneralClean)" if prop == "C03" else "C06_general_partial (inGeneralXor and ret_never_control)"
+        res.notes.append(f"{stats['in_general']} compiled instances lie in the class of {gthm}: definition lists with the "
+                         "intermediates first and the return bits last, every name defined once, no constants, any sharing "
+                         f"of sub-expressions; {stats['in_general_only']} of them in no older class, "
+                         f"{stats['in_general_cache_hit']} with a cache hit in the model run")
         res.notes.append(f"{stats['in_fragment']} compiled instances lie in the decidable class of the Lean theorem {thm} "
                          f"({cls}: one definition, tree-like expression over the arguments with Or of any arity, the return "
                          "name requested - or, for C03, none) with the model reproducing the real gate list; the theorem is proved for the model of "
